@@ -88,6 +88,7 @@ def run(idx, rep, tier):
     r5(idx, rep)
     unmatched_cells(idx, rep, "R5")
     serial_unmatched(idx, rep, "R5")
+    collecting_flag(idx, rep, "R5")
     spooler_table(idx, rep, "R1")
     empty_collection(idx, rep, "R1")
     run_manifest_e2e(idx, rep, "R1")
@@ -269,6 +270,28 @@ def serial_unmatched(idx, rep, rid):
                     bad = bad or (f"{method} with {[(t, v) for t, v in p.choices if not t.startswith('self.')]}: the result of member {cp} is saved with unmatched lines {saved[res]!r}; "
                                   f"documented: the lines the member kept (UNM:{cp}) — unmatched.csv would be missing or stale")
         rep.check(bad is None, rid, f"{fi.file}::CsvPaths.{method} saves the member's unmatched lines on every path", bad or f"{len(paths)} paths", K.where(fi, fi.node))
+
+
+def collecting_flag(idx, rep, rid):
+    """a run that collects tells its csvpaths so: CsvPath.collecting is what makes the generator keep unmatched lines and the spooler leave
+    an (empty) data.csv for a member that matched nothing.  collect() sets it itself; next_paths(collect=True) and the by-line runs drive
+    the csvpath differently and must set it before the first line; a run that does not collect must not."""
+    from . import runs_model as RM
+    for collect in (True, False):
+        fi, paths = RM.serial_rows(idx, "next_paths", collect=collect)
+        bad = None
+        for p in paths:
+            for kk, (cp, v) in [(kk, v) for kk, v in RM.events(p) if kk == "run-collecting"]:
+                if bool(v) is not collect or isinstance(v, Residual):
+                    bad = bad or f"next_paths(collect={collect}): member {cp} runs with collecting={v!r}, documented {collect}"
+        rep.check(bad is None, rid, f"{fi.file}::CsvPaths.next_paths(collect={collect}) tells the csvpath whether it collects", bad or f"{len(paths)} paths", K.where(fi, fi.node))
+        fb, rows = RM.byline_rows(idx, 2, "plain", collect=collect)
+        bad = None
+        for agree, p in rows:
+            for kk, (cp, v) in [(kk, v) for kk, v in RM.events(p) if kk == "consider-collecting"]:
+                if bool(v) is not collect or isinstance(v, Residual):
+                    bad = bad or f"next_by_line(collect={collect}): member {cp} is handed a line with collecting={v!r}, documented {collect}"
+        rep.check(bad is None, rid, f"{fb.file}::CsvPaths.next_by_line(collect={collect}) tells the csvpaths whether they collect", bad or f"{len(rows)} paths", K.where(fb, fb.node))
 
 
 def unmatched_cells(idx, rep, rid):
